@@ -499,6 +499,16 @@ impl World {
                             cb_log.push((new.to_vec(), false));
                             Err(())
                         }
+                        Cb::RejectOnce => {
+                            if cb_log.is_empty() {
+                                cb_log.push((new.to_vec(), false));
+                                Err(())
+                            } else {
+                                cb_log.push((new.to_vec(), true));
+                                durable_write = Some(new.to_vec());
+                                Ok(())
+                            }
+                        }
                         Cb::CrashBeforeDurable => {
                             cb_log.push((new.to_vec(), true));
                             lib::simulate_crash()
@@ -552,7 +562,7 @@ impl World {
                             self.procs[pi].mem = Some(Mem::Bytes(w.clone()));
                         }
                     }
-                    (_, Cb::Reject) => {
+                    (_, Cb::Reject) | (_, Cb::RejectOnce) => {
                         if !cb_log.is_empty() {
                             self.fault("cb-reject");
                         }
@@ -583,7 +593,7 @@ impl World {
                                 self.procs[pi].mem = None;
                                 self.fault("crash-after-durable");
                             }
-                            Cb::Accept | Cb::Reject => {
+                            Cb::Accept | Cb::Reject | Cb::RejectOnce => {
                                 self.keys[ki].prv = post.clone();
                                 released = true;
                             }
@@ -631,6 +641,13 @@ impl World {
             self.note_panic(&site);
         }
 
+        // a released signature must have cost the stored key a leaf (C03: continue from the persisted
+        // key without reuse; C05: every release lowers the remaining lifetime by one)
+        if released && self.keys[ki].prv == kb {
+            self.violate("C03", "released-without-advancing-stored-key", "successor", format!("a signature was released but the persisted key is still {} ({})", short_hex(&kb), counter_s));
+            self.violate("C05", "released-without-advancing-stored-key", "lifetime", format!("a signature was released but the persisted key did not lose a leaf ({})", counter_s));
+        }
+
         // ---- oracles ----
         self.sign_oracles(ki, api_eff, cb, &kb, &decoded, &message, &outcome, &cb_log, released, successor_seen.as_deref(), aux_slot.is_some() && aux_before.is_some());
 
@@ -656,7 +673,7 @@ impl World {
                     }
                     (Outcome::Crash, _) | (_, Outcome::Crash) => {}
                     (Outcome::Err, Outcome::Err) => {}
-                    (Outcome::Err, Outcome::Ok(_)) if matches!(cb, Cb::Reject) => {}
+                    (Outcome::Err, Outcome::Ok(_)) if matches!(cb, Cb::Reject | Cb::RejectOnce) => {}
                     (a, b) => {
                         if a.kind() != b.kind() {
                             let key = match a {
@@ -769,7 +786,7 @@ impl World {
                         self.check_release(ki, params, *counter, seed, message, sig, released);
                     }
                     Outcome::Err => {
-                        let excused = matches!(api, Api::Fn) && matches!(cb, Cb::Reject) && cb_log.len() == 1;
+                        let excused = matches!(api, Api::Fn) && matches!(cb, Cb::Reject | Cb::RejectOnce) && !cb_log.is_empty() && !cb_log[0].1;
                         if !excused {
                             let key = if with_aux { "sign-err-with-aux" } else { "sign-err" };
                             self.violate("C05", format!("{}:{}", key, levels_class(params)), "lifetime", format!("{} refused to sign with counter {} of {} leaves ({})", api_name(api), counter, model::total_leaves(&hts), shape));
